@@ -40,8 +40,8 @@ BUILD = os.environ.get("VERIF_BUILD_DIR", os.path.join(VERIF, ".build"))
 CRATE = os.path.join(BUILD, "crate", "hv")
 TARGET = os.path.join(BUILD, "hv")
 OUT = os.path.join(BUILD, "out")
-EVID = os.path.join(VERIF, "evidence")
-CASES = os.path.join(VERIF, "replay", "cases")
+EVID = os.environ.get("VERIF_EVIDENCE_DIR", os.path.join(VERIF, "evidence"))
+CASES = os.environ.get("VERIF_CASES_DIR", os.path.join(VERIF, "replay", "cases"))
 KNOWN = os.path.join(VERIF, "known_findings.txt")
 
 ENV = dict(os.environ)
@@ -128,6 +128,17 @@ def build():
     return p.returncode == 0, time.time() - t0, p.stdout
 
 
+def cbmc_args(h):
+    """CBMC splits arrays into per-element variables only up to 64 elements by default; larger ones
+    (a 65-byte P-256 key, message buffers, the interning table rows) are handled as whole-array
+    update chains, which made a concrete-tag check on a 65-byte key run out of memory (2.5 M steps)
+    instead of finishing in 3 s.  Must be the last flags on the command line."""
+    fs = h.get("fs", os.environ.get("VERIF_FS", ""))
+    if not fs:
+        return []  # CBMC default (64); measured: 256 everywhere makes the interning harnesses >3x slower
+    return ["--cbmc-args", "--max-field-sensitivity-array-size", str(fs)]
+
+
 def run_harness(h, extra=None, tag=""):
     """Run one harness as its own cargo-kani/CBMC process. Returns a result dict."""
     name = h["name"]
@@ -141,6 +152,7 @@ def run_harness(h, extra=None, tag=""):
         + MODE_ARGS[h["mode"]]
         + ["--harness", h["full_name"], "--exact", "--output-format", "terse", "--export-json", js]
         + (extra or [])
+        + cbmc_args(h)
     )
     t0 = time.time()
     timeout = int(h["timeout"]) * float(os.environ.get("VERIF_TIMEOUT_SCALE", "1"))
@@ -223,7 +235,7 @@ def run_harness(h, extra=None, tag=""):
         "unsat": [c.get("description", "") for c in unsat],
     }
     for c in d.get("cbmc", []):
-        res["stats"] = c.get("cbmc_stats", {})
+        res["stats"] = {k: (v if v is not None else 0) for k, v in (c.get("cbmc_stats") or {}).items()}
     res["failed_checks"] = failed
     st = r.get("status")
     should_panic = False
@@ -262,6 +274,7 @@ def replay(h, res):
         + BASE_ARGS
         + MODE_ARGS[h["mode"]]
         + ["-Z", "concrete-playback", "--concrete-playback=print", "--harness", h["full_name"], "--exact"]
+        + cbmc_args(h)
     )
     with open(lg, "w") as f:
         proc = subprocess.Popen(cmd, cwd=CRATE, env=ENV, stdout=f, stderr=subprocess.STDOUT, preexec_fn=limits)
@@ -467,8 +480,28 @@ def main():
     log(f"[{label}] build ok in {tb:.0f} s; running {len(order)} harnesses, {args.jobs} at a time")
 
     results = {}
+    # token scheduler: a harness annotated slots=N (memory-hungry: the interning harnesses peak at
+    # ~10-17 GB) occupies N of the `jobs` tokens, so that the sum stays inside the machine's RAM
+    import threading
+
+    cond = threading.Condition()
+    free = [args.jobs]
+
+    def guarded(h):
+        need = min(int(h.get("slots", "1")), args.jobs)
+        with cond:
+            while free[0] < need:
+                cond.wait()
+            free[0] -= need
+        try:
+            return run_harness(h)
+        finally:
+            with cond:
+                free[0] += need
+                cond.notify_all()
+
     with cf.ThreadPoolExecutor(max_workers=args.jobs) as ex:
-        futs = {ex.submit(run_harness, h): h for h in order}
+        futs = {ex.submit(guarded, h): h for h in order}
         for fu in cf.as_completed(futs):
             h = futs[fu]
             try:
@@ -481,7 +514,7 @@ def main():
                      "covers": {"satisfied": 0, "total": 0, "unsat": []}, "stats": {}, "n_checks": 0, "n_passed": 0, "log": "",
                      "reason": "driver error: %r" % (e,)}
             results[h["name"]] = r
-            s = r["stats"]
+            s = r["stats"] or {}
             log(
                 f"[{h['prop']}] {r['status']:9s} {h['name']:44s} {r['wall_s']:7.1f}s checks={r['n_checks']} "
                 f"covers={r['covers']['satisfied']}/{r['covers']['total']} symex={s.get('runtime_symex_s', 0):.0f}s "
